@@ -1,3 +1,473 @@
-import KoordVerif.Model.C04
+import KoordVerif.Proofs.C04Permit
+/-
+C04 — gang scheduling is all-or-nothing across the whole gang group (property theorems).
+
+The model (Model/C04.lean) is the Go code of pkg/scheduler/plugins/coscheduling/core as written
+(after fix bbde960 in setChild).  All theorems quantify over EVERY model state `s` (reachable or not),
+every pod, every gang and every configuration; the history theorems quantify over every list of
+entry-point calls in any order.  Notation: `held g` = the number of members the gang's match policy
+counts (waiting, or waiting + bound under waiting-and-running).
+
+ A. Permit
+   permit_success_iff           Success  <->  every gang of the group is valid at the instant of return
+   validForPermit_iff           the validity test spelled out for the three policies
+   permit_release_min_held      Success and the group not once-satisfied  ->  every gang holds >= min
+   permit_wait_parks            otherwise the pod waits: nobody is released, the pod is parked
+   permit_success_releases_all  on Success exactly the parked members of the group are released
+   permit_not_found             gang unknown: PodGroupNotFound, nothing changes
+   allow_only_from_successful_permit   no other entry point ever releases a waiting pod
+   release_sound                any released pod's OWN group is valid (consistent group declarations)
+ B. strict mode
+   unreserve_strict_rejects_all / postFilter_strict_rejects_all / unreserve_lenient_rejects_none
+ C. partition of the members
+   base_inv_all_histories       after ANY history: pending ∩ waiting = ∅ and member ⊆ pending ∪ waiting ∪ bound
+   partition_inv_partial        exactly-one, for histories in which Permit is never called for a pod
+                                that is bound (the scheduler never does: framework contract)
+   partition_needs_contract     the unrestricted statement is false (kernel-checked witness)
+   stale_update_keeps_bound_out_of_pending   the repaired defect (C04:pod-in-two-sets), as a theorem
+ D. Permit without a cache-wide lock (small-step)
+   permit_snapshot              each gang was valid at the moment it was inspected
+   permit_snapshot_atomic       with no interleaved event the small-step loop is the atomic test
+   permit_race_witness          a racing delete can make the atomic statement false at return
+-/
 namespace KoordVerif.C04
+
+/-! ## A. Permit -/
+
+/-- the number of members of a gang that hold resources, as the gang's match policy counts them -/
+def held (g : Gang) : Nat :=
+  if g.policy = 1 then g.ps.waiting.length + g.ps.bound.length else g.ps.waiting.length
+
+/-- isGangValidForPermit, spelled out: initialised, and the minimum is held — or (once-satisfied
+    policy only) the group was satisfied before. -/
+theorem validForPermit_iff (s : State) (g : Gang) :
+    validForPermit s g = true ↔
+      g.init = true ∧ (g.min ≤ (held g : Int) ∨ (g.policy ≠ 0 ∧ g.policy ≠ 1 ∧ infoSat s g.info = true)) := by
+  unfold validForPermit held
+  rcases hp : g.policy with _ | _ | k
+  · simp
+  · simp
+  · simp
+
+theorem allValid_iff (s : State) (grp : List GangId) :
+    allValid s grp = true ↔
+      ∀ h ∈ grp, ∃ gh, findGang s.gangs h = some gh ∧ validForPermit s gh = true := by
+  unfold allValid
+  rw [List.all_eq_true]
+  constructor
+  · intro H h hh
+    have := H h hh
+    split at this
+    next gh e => exact ⟨gh, e, this⟩
+    next => exact absurd this (by simp)
+  · intro H h hh
+    obtain ⟨gh, e, hv⟩ := H h hh
+    rw [e]; exact hv
+
+/-- the gang of the pod after Permit: the pod has been added to its waiting set, nothing else -/
+theorem permit_gang_after (s : State) (p : Pod) (id : GangId) (g : Gang) (hg : findGang s.gangs id = some g) :
+    findGang (permit s p id).1.gangs id = some (g.addAssumed p) := by
+  have e := findGang_assumed s p id g hg
+  obtain ⟨h1, h2⟩ := permit_spec s p id g hg
+  by_cases hv : allValid (assumed s p id) g.group = true
+  · rw [h1 hv]; exact e
+  · rw [h2 (by simpa using hv)]; exact e
+
+/-- T1. Permit answers Success iff, in the state it returns in, every gang of the pod's gang group is
+    in the cache and valid for permit. -/
+theorem permit_success_iff (s : State) (p : Pod) (id : GangId) (g : Gang) (hg : findGang s.gangs id = some g) :
+    (permit s p id).2.verdict = 0 ↔ allValid (permit s p id).1 g.group = true := by
+  obtain ⟨h1, h2⟩ := permit_spec s p id g hg
+  by_cases hv : allValid (assumed s p id) g.group = true
+  · rw [h1 hv]
+    simp only [true_iff]
+    rw [← hv]
+    exact allValid_congr rfl rfl _
+  · have hv' : allValid (assumed s p id) g.group = false := by simpa using hv
+    rw [h2 hv']
+    have e := allValid_congr (s := parked (assumed s p id) p id) (t := assumed s p id) rfl rfl g.group
+    simp only
+    rw [e, hv']
+    decide
+
+/-- Permit answers Success (0) or Wait (1) for a cached gang -/
+theorem permit_verdict (s : State) (p : Pod) (id : GangId) (g : Gang) (hg : findGang s.gangs id = some g) :
+    (permit s p id).2.verdict = 0 ∨ (permit s p id).2.verdict = 1 := by
+  obtain ⟨h1, h2⟩ := permit_spec s p id g hg
+  by_cases hv : allValid (assumed s p id) g.group = true
+  · rw [h1 hv]; exact Or.inl rfl
+  · rw [h2 (by simpa using hv)]; exact Or.inr rfl
+
+/-- The property's first sentence.  If Permit releases the pod, then at that instant every gang of its
+    gang group is cached, initialised and — unless that gang's group has been satisfied before —
+    holds at least its minimum number of members (waiting, or waiting + bound under
+    waiting-and-running). -/
+theorem permit_release_min_held (s : State) (p : Pod) (id : GangId) (g : Gang)
+    (hg : findGang s.gangs id = some g) (hv : (permit s p id).2.verdict = 0) :
+    ∀ h ∈ g.group, ∃ gh, findGang (permit s p id).1.gangs h = some gh ∧ gh.init = true ∧
+      (infoSat (permit s p id).1 gh.info = false → gh.min ≤ (held gh : Int)) := by
+  have hall := (permit_success_iff s p id g hg).mp hv
+  intro h hh
+  obtain ⟨gh, e, hval⟩ := (allValid_iff _ _).mp hall h hh
+  obtain ⟨hi, hm⟩ := (validForPermit_iff _ _).mp hval
+  refine ⟨gh, e, hi, ?_⟩
+  intro hs
+  rcases hm with hm | ⟨_, _, hsat⟩
+  · exact hm
+  · rw [hs] at hsat; exact absurd hsat (by decide)
+
+/-- "otherwise it waits": not Success means Wait — no pod is released and the pod is parked in the
+    framework's waiting map. -/
+theorem permit_wait_parks (s : State) (p : Pod) (id : GangId) (g : Gang) (hg : findGang s.gangs id = some g)
+    (hv : (permit s p id).2.verdict ≠ 0) :
+    (permit s p id).2.verdict = 1 ∧ (permit s p id).2.allowed = [] ∧ (p, id) ∈ (permit s p id).1.fw := by
+  obtain ⟨h1, h2⟩ := permit_spec s p id g hg
+  by_cases hval : allValid (assumed s p id) g.group = true
+  · rw [h1 hval] at hv; exact absurd rfl hv
+  · rw [h2 (by simpa using hval)]
+    exact ⟨rfl, rfl, by simp [parked]⟩
+
+/-- all, not some: on Success exactly the parked pods of the gangs of the group are allowed, and
+    none of them stays parked. -/
+theorem permit_success_releases_all (s : State) (p : Pod) (id : GangId) (g : Gang)
+    (hg : findGang s.gangs id = some g) (hv : (permit s p id).2.verdict = 0) :
+    (∀ q, q ∈ (permit s p id).2.allowed ↔ ∃ h, (q, h) ∈ s.fw ∧ h ∈ g.group) ∧
+    (∀ e ∈ (permit s p id).1.fw, e.2 ∉ g.group) := by
+  obtain ⟨h1, h2⟩ := permit_spec s p id g hg
+  by_cases hval : allValid (assumed s p id) g.group = true
+  · rw [h1 hval]
+    constructor
+    · intro q
+      exact mem_fwHit (s := assumed s p id)
+    · intro e he
+      exact (mem_fwDrop.mp he).2
+  · rw [h2 (by simpa using hval)] at hv
+    simp at hv
+
+/-- gang not in the cache: PodGroupNotFound, no state change, nobody released -/
+theorem permit_not_found (s : State) (p : Pod) (id : GangId) (hg : findGang s.gangs id = none) :
+    permit s p id = (s, { verdict := 2 }) := by
+  unfold permit
+  rw [hg]
+
+/-- Release from the permit stage happens nowhere else: an entry point that issues a
+    `WaitingPod.Allow` is a Permit call that answered Success. -/
+theorem allow_only_from_successful_permit (s : State) (op : Op) (h : (step s op).2.allowed ≠ []) :
+    ∃ p id, op = .permit p id ∧ (step s op).2.verdict = 0 := by
+  cases op with
+  | permit p id =>
+    refine ⟨p, id, rfl, ?_⟩
+    simp only [step] at h ⊢
+    cases hg : findGang s.gangs id with
+    | none => rw [permit_not_found s p id hg] at h; exact absurd rfl h
+    | some g =>
+      rcases permit_verdict s p id g hg with h0 | h1
+      · exact h0
+      · exact absurd (permit_wait_parks s p id g hg (by rw [h1]; decide)).2.1 h
+  | unreserve p id =>
+    simp only [step] at h
+    cases hg : findGang s.gangs id with
+    | none =>
+      have : findGang (fwRemove s p).gangs id = none := hg
+      unfold unreserve at h
+      simp only [this] at h
+      exact absurd rfl h
+    | some g =>
+      obtain ⟨h1, h2⟩ := unreserve_spec s p id g hg
+      by_cases hc : exempt s g = false ∧ g.strict = true
+      · rw [h1 hc] at h; exact absurd rfl h
+      · rw [h2 hc] at h; exact absurd rfl h
+  | postFilter p id =>
+    simp only [step] at h
+    cases hg : findGang s.gangs id with
+    | none =>
+      unfold postFilter at h
+      simp only [hg] at h
+      exact absurd rfl h
+    | some g =>
+      obtain ⟨h1, h2⟩ := postFilter_spec s id g hg
+      by_cases hc : exempt s g = false ∧ g.strict = true
+      · rw [h1 hc] at h; exact absurd rfl h
+      · rw [h2 hc] at h; exact absurd rfl h
+  | pgAdd _ _ => exact absurd rfl h
+  | pgUpd _ _ => exact absurd rfl h
+  | pgDel _ => exact absurd rfl h
+  | podEvt _ _ _ _ => exact absurd rfl h
+  | podDel _ _ => exact absurd rfl h
+  | postBind _ _ => exact absurd rfl h
+  | nop => exact absurd rfl h
+
+/-- gang-group declarations are consistent: every cached gang of a gang's group declares the same group -/
+def GroupConsistent (s : State) : Prop :=
+  ∀ g ∈ s.gangs, ∀ h ∈ g.group, ∀ gh, findGang s.gangs h = some gh → gh.group = g.group
+
+/-- Every pod released by a successful Permit — the pod itself or a parked member of another gang —
+    belongs to a gang whose OWN declared gang group is entirely valid at that instant. -/
+theorem release_sound (s : State) (p : Pod) (id : GangId) (g : Gang) (hg : findGang s.gangs id = some g)
+    (hv : (permit s p id).2.verdict = 0) (hc : GroupConsistent (permit s p id).1) :
+    ∀ h ∈ g.group, ∀ gh, findGang (permit s p id).1.gangs h = some gh →
+      allValid (permit s p id).1 gh.group = true := by
+  intro h hh gh hgh
+  have hafter := permit_gang_after s p id g hg
+  have hmem := (mem_of_findGang hafter).1
+  have := hc (g.addAssumed p) hmem h hh gh hgh
+  rw [this]
+  exact (permit_success_iff s p id g hg).mp hv
+
+/-! ## B. strict mode: a failed or rolled-back member rejects the whole group -/
+
+/-- Unreserve of a member of a strict gang (not exempted by once-satisfied): every pod parked at
+    Permit that belongs to a gang of the group gets `Reject`, and none stays parked. -/
+theorem unreserve_strict_rejects_all (s : State) (p : Pod) (id : GangId) (g : Gang)
+    (hg : findGang s.gangs id = some g) (hs : g.strict = true) (he : exempt s g = false) :
+    (∀ q h, (q, h) ∈ s.fw → q ≠ p → h ∈ g.group → q ∈ (unreserve s p id).2.rejected) ∧
+    (∀ e ∈ (unreserve s p id).1.fw, e.2 ∉ g.group) := by
+  rw [(unreserve_spec s p id g hg).1 ⟨he, hs⟩]
+  constructor
+  · intro q h hm hq hh
+    apply (mem_fwHit (s := unassumed s p id)).mpr
+    refine ⟨h, ?_, hh⟩
+    simp [unassumed, fwRemove, List.mem_filter, hm, hq]
+  · intro e hm
+    exact (mem_fwDrop.mp hm).2
+
+/-- AfterPostFilter (the member found no node), same statement -/
+theorem postFilter_strict_rejects_all (s : State) (id : GangId) (g : Gang)
+    (hg : findGang s.gangs id = some g) (hs : g.strict = true) (he : exempt s g = false) :
+    (∀ q h, (q, h) ∈ s.fw → h ∈ g.group → q ∈ (postFilter s id).2.rejected) ∧
+    (∀ e ∈ (postFilter s id).1.fw, e.2 ∉ g.group) := by
+  rw [(postFilter_spec s id g hg).1 ⟨he, hs⟩]
+  constructor
+  · intro q h hm hh
+    exact mem_fwHit.mpr ⟨h, hm, hh⟩
+  · intro e hm
+    exact (mem_fwDrop.mp hm).2
+
+/-- the exemption is exactly "once-satisfied policy and the group was satisfied before" -/
+theorem exempt_iff (s : State) (g : Gang) : exempt s g = true ↔ g.policy = 2 ∧ infoSat s g.info = true := by
+  unfold exempt
+  simp
+
+/-- non-strict mode or exempted: Unreserve only rolls the pod back, nobody is rejected -/
+theorem unreserve_lenient_rejects_none (s : State) (p : Pod) (id : GangId) (g : Gang)
+    (hg : findGang s.gangs id = some g) (h : g.strict = false ∨ exempt s g = true) :
+    (unreserve s p id).2.rejected = [] ∧ (unreserve s p id).1 = unassumed s p id := by
+  have hc : ¬ (exempt s g = false ∧ g.strict = true) := by
+    rintro ⟨h1, h2⟩
+    rcases h with h | h
+    · rw [h] at h2; exact absurd h2 (by decide)
+    · rw [h] at h1; exact absurd h1 (by decide)
+  rw [(unreserve_spec s p id g hg).2 hc]
+  exact ⟨rfl, rfl⟩
+
+/-! ## C. partition of the members -/
+
+/-- PARTITION, unconditional part.  After ANY sequence of entry-point calls, in any order, from any
+    state in which it held: no member is both pending and waiting, and every member is in at least
+    one of pending / waiting / bound. -/
+theorem base_inv_run (s : State) (ops : List Op) (h : AllG PodSets.Base s.gangs) :
+    AllG PodSets.Base (run s ops).gangs := by
+  induction ops generalizing s with
+  | nil => exact h
+  | cons o os ih =>
+    exact ih _ (step_allG base_setInv (Q := fun _ _ => True)
+      (fun g p hg _ => base_addAssumed g p hg) s o h (fun _ _ _ _ _ _ => trivial))
+
+theorem base_inv_all_histories (ops : List Op) : AllG PodSets.Base (run init ops).gangs :=
+  base_inv_run init ops (fun g hg => by simp [init] at hg)
+
+/-- spelled out -/
+theorem member_in_some_set (ops : List Op) (g : Gang) (hg : g ∈ (run init ops).gangs) (p : Pod)
+    (hp : p ∈ g.ps.children) : p ∈ g.ps.pending ∨ p ∈ g.ps.waiting ∨ p ∈ g.ps.bound :=
+  (base_inv_all_histories ops g hg).2 p hp
+
+theorem pending_waiting_disjoint (ops : List Op) (g : Gang) (hg : g ∈ (run init ops).gangs) (p : Pod)
+    (hp : p ∈ g.ps.pending) : p ∉ g.ps.waiting :=
+  (base_inv_all_histories ops g hg).1 p hp
+
+/-- The framework contract the full partition needs: Permit is never called for a pod that the
+    gang already has in its bound set (the scheduler does not schedule an assigned pod). -/
+def ContractOK : State → List Op → Prop
+  | _, [] => True
+  | s, o :: os =>
+    (∀ p id, o = .permit p id → NotBound s.gangs id p) ∧ ContractOK (step s o).1 os
+
+/-- executable form of `ContractOK` (for the non-vacuity examples) -/
+def opOKb (s : State) : Op → Bool
+  | .permit p id => s.gangs.all (fun g => !(g.id == id) || !(decide (p ∈ g.ps.bound)))
+  | _ => true
+
+def contractOKb : State → List Op → Bool
+  | _, [] => true
+  | s, o :: os => opOKb s o && contractOKb (step s o).1 os
+
+theorem contractOK_of_b (s : State) (ops : List Op) (h : contractOKb s ops = true) : ContractOK s ops := by
+  induction ops generalizing s with
+  | nil => trivial
+  | cons o os ih =>
+    simp only [contractOKb, Bool.and_eq_true] at h
+    refine ⟨?_, ih _ h.2⟩
+    intro p id e g hg hid
+    subst e
+    have := List.all_eq_true.mp h.1 g hg
+    simp [hid] at this
+    exact this
+
+/-
+FULL STATEMENT (properties.jsonl): "A member pod is always in exactly one of the pending, waiting or
+bound sets of its gang, whatever order pod events, permits, roll-backs, binds and deletions arrive in."
+  theorem partition_inv : ∀ ops, AllG PodSets.Part (run init ops).gangs
+is FALSE for the model and the code (`partition_needs_contract` below): a Permit issued for a pod
+that is already bound puts it into waiting AND bound.  What is proved is the statement for every
+history that respects `ContractOK`; pod events, PodGroup events, roll-backs, binds and deletions are
+unrestricted, in particular stale pod updates without a node name after PostBind.
+-/
+theorem partition_inv_partial (s : State) (ops : List Op) (h : AllG PodSets.Part s.gangs)
+    (hc : ContractOK s ops) : AllG PodSets.Part (run s ops).gangs := by
+  induction ops generalizing s with
+  | nil => exact h
+  | cons o os ih =>
+    obtain ⟨h1, h2⟩ := hc
+    exact ih _ (step_allG part_setInv (Q := fun g p => p ∉ g.bound)
+      (fun g p hg hb => part_addAssumed g p hg hb) s o h
+      (fun p id e g hg hid => h1 p id e g hg hid)) h2
+
+theorem partition_reachable_partial (ops : List Op) (hc : ContractOK init ops) :
+    AllG PodSets.Part (run init ops).gangs :=
+  partition_inv_partial init ops (fun g hg => by simp [init] at hg) hc
+
+/-- exactly one: what `Part` says about a member -/
+theorem part_exactly_one (g : PodSets) (h : g.Part) (p : Pod) (hp : p ∈ g.children) :
+    (p ∈ g.pending ∧ p ∉ g.waiting ∧ p ∉ g.bound) ∨
+    (p ∉ g.pending ∧ p ∈ g.waiting ∧ p ∉ g.bound) ∨
+    (p ∉ g.pending ∧ p ∉ g.waiting ∧ p ∈ g.bound) := by
+  obtain ⟨h1, h2, h3, hc⟩ := h
+  rcases hc p hp with h | h | h
+  · exact Or.inl ⟨h, h1 p h, h3 p h⟩
+  · exact Or.inr (Or.inl ⟨fun hq => h1 p hq h, h, h2 p h⟩)
+  · exact Or.inr (Or.inr ⟨fun hq => h3 p hq h, fun hq => h2 p hq h, h⟩)
+
+/-- a history that breaks the contract: pod 0 of gang 0 is reported bound by the informer, then
+    Permit is called for it -/
+def breachHistory : List Op :=
+  [.pgAdd 0 { min := 1, policy := 0, mode := 1, group := [] }, .podEvt 0 0 true none, .permit 0 0]
+
+/-- the unrestricted partition statement is false: after `breachHistory` pod 0 is waiting and bound -/
+theorem partition_needs_contract : ¬ ∀ ops, AllG PodSets.Part (run init ops).gangs := by
+  intro h
+  have hg : (run init breachHistory).gangs ≠ [] := by decide
+  cases hgs : (run init breachHistory).gangs with
+  | nil => exact hg hgs
+  | cons g t =>
+    have hw : (0 : Nat) ∈ g.ps.waiting := by
+      have : ∀ g' ∈ (run init breachHistory).gangs, (0 : Nat) ∈ g'.ps.waiting := by decide
+      exact this g (by rw [hgs]; exact List.mem_cons_self)
+    have hb : (0 : Nat) ∈ g.ps.bound := by
+      have : ∀ g' ∈ (run init breachHistory).gangs, (0 : Nat) ∈ g'.ps.bound := by decide
+      exact this g (by rw [hgs]; exact List.mem_cons_self)
+    exact (h breachHistory g (by rw [hgs]; exact List.mem_cons_self)).2.1 0 hw hb
+
+/-- The repaired defect (known finding C04:pod-in-two-sets, fix bbde960) as a theorem: a pod update
+    that does not carry a node name never makes a bound member pending. -/
+theorem stale_update_keeps_bound_out_of_pending (g : PodSets) (p : Pod) (hb : p ∈ g.bound) :
+    (g.setChild p false).pending = g.pending ∧ (g.setChild p false).bound = g.bound := by
+  unfold PodSets.setChild
+  simp [hb]
+
+/-- non-vacuity: a contract-respecting history with a two-member release, a PostBind, a stale pod
+    update after it (the repaired order), a roll-back and a deletion. -/
+def sampleHistory : List Op :=
+  [.pgAdd 0 { min := 2, policy := 0, mode := 1, group := [0, 1] },
+   .podEvt 10 1 false (some (true, { min := 1, policy := 3, mode := 2, group := [1, 0] })),
+   .podEvt 0 0 false none, .podEvt 1 0 false none,
+   .permit 0 0, .permit 10 1, .permit 1 0,
+   .postBind 0 0, .podEvt 0 0 false none, .unreserve 1 0, .podDel 10 1]
+
+example : ContractOK init sampleHistory := contractOK_of_b _ _ (by decide)
+
+example : (step (run init (sampleHistory.take 6)) (.permit 1 0)).2 = { verdict := 0, allowed := [10, 0] } := by
+  decide
+
+example : ∃ g ∈ (run init (sampleHistory.take 9)).gangs, g.ps.bound = [0] ∧ g.ps.pending = [] := by
+  decide
+
+/-! ## D. Permit holds no cache-wide lock: small-step statement -/
+
+/-- The loop of Permit with an arbitrary state change (an informer handler or another scheduling
+    goroutine, at lock-section granularity) before every inspection.  Returns the verdict, the
+    final state and the (state, gang) pairs at the moments of inspection. -/
+def inspectLoop : State → List GangId → List (State → State) → Bool × State × List (State × GangId)
+  | s, [], _ => (true, s, [])
+  | s, h :: hs, envs =>
+    let s' := (envs.headD id) s
+    match findGang s'.gangs h with
+    | some gh =>
+      if validForPermit s' gh then
+        let r := inspectLoop s' hs envs.tail
+        (r.1, r.2.1, (s', h) :: r.2.2)
+      else (false, s', [])
+    | none => (false, s', [])
+
+/-- T4. If the small-step Permit succeeds then every gang of the group was inspected, in order, and
+    was valid at the moment it was inspected — whatever ran in between. -/
+theorem permit_snapshot (s : State) (grp : List GangId) (envs : List (State → State))
+    (h : (inspectLoop s grp envs).1 = true) :
+    (inspectLoop s grp envs).2.2.map (·.2) = grp ∧
+    ∀ e ∈ (inspectLoop s grp envs).2.2, ∃ gh, findGang e.1.gangs e.2 = some gh ∧ validForPermit e.1 gh = true := by
+  induction grp generalizing s envs with
+  | nil => simp [inspectLoop]
+  | cons a t ih =>
+    unfold inspectLoop at h ⊢
+    simp only at h ⊢
+    split at h
+    next gh e =>
+      by_cases hv : validForPermit (envs.headD id s) gh = true
+      · rw [if_pos hv] at h ⊢
+        obtain ⟨i1, i2⟩ := ih _ _ h
+        refine ⟨by simp only [List.map_cons, List.cons.injEq, true_and]; exact i1, ?_⟩
+        intro x hx
+        simp only [List.mem_cons] at hx
+        rcases hx with rfl | hx
+        · exact ⟨gh, e, hv⟩
+        · exact i2 x hx
+      · rw [if_neg hv] at h
+        simp at h
+    next => simp at h
+
+/-- with nothing interleaved the small-step loop is the atomic test of `permit` -/
+theorem permit_snapshot_atomic (s : State) (grp : List GangId) :
+    (inspectLoop s grp []).1 = allValid s grp ∧ (inspectLoop s grp []).2.1 = s := by
+  induction grp with
+  | nil => simp [inspectLoop, allValid]
+  | cons a t ih =>
+    unfold inspectLoop
+    simp only [List.headD_nil, id, List.tail_nil]
+    have e : allValid s (a :: t) = ((match findGang s.gangs a with
+        | some gh => validForPermit s gh
+        | none => false) && allValid s t) := by
+      unfold allValid
+      rfl
+    rw [e]
+    split
+    next gh _ =>
+      by_cases hv : validForPermit s gh = true
+      · simp [hv, ih.1, ih.2]
+      · simp [hv]
+    next => simp
+
+/-- two gangs (min 1 each) in one group, one waiting pod each -/
+def raceState : State :=
+  run init [.pgAdd 0 { min := 1, policy := 0, mode := 1, group := [0, 1] },
+            .pgAdd 1 { min := 1, policy := 0, mode := 1, group := [0, 1] },
+            .podEvt 0 0 false none, .podEvt 10 1 false none, .permit 10 1]
+
+/-- The atomic statement does NOT survive real interleavings: a pod deletion that lands between
+    the inspection of gang 0 and gang 1 lets the small-step Permit succeed although, at return,
+    gang 0 no longer holds its minimum.  (`permit_snapshot` is the honest statement there.) -/
+theorem permit_race_witness :
+    let s1 := assumed raceState 0 0
+    let r := inspectLoop s1 [0, 1] [id, fun s => podDel s 0 0]
+    r.1 = true ∧ allValid r.2.1 [0, 1] = false := by
+  decide
+
 end KoordVerif.C04
